@@ -75,11 +75,12 @@ type Pos struct {
 	Optional        bool   // property that may be absent (not required, or has a default)
 	Named           bool   // reached through $ref (a named definition) or is the root schema
 	File            string
-	ArrDepth        int  // number of enclosing inline arrays (item positions)
-	Outer           S    // outermost inline array schema of a nest (for NESTED_ARRAY_OUTER_LIMITS)
-	InMap           bool // this node is a map value / additional property
-	ParentNoMethods bool // property of an object emitted as an inline struct without unmarshal method
-	InNamedArr      bool // item of an array that is itself a named definition / the root
+	ArrDepth        int            // number of enclosing inline arrays (item positions)
+	Outer           S              // outermost inline array schema of a nest (for NESTED_ARRAY_OUTER_LIMITS)
+	InMap           bool           // this node is a map value / additional property
+	ParentNoMethods bool           // property of an object emitted as an inline struct without unmarshal method
+	InNamedArr      bool           // item of an array that is itself a named definition / the root
+	UnionDeclared   map[string]any // evaluating an allOf / anyOf branch: properties declared by any branch (the generated struct has them all)
 	Path            string
 }
 
@@ -337,9 +338,19 @@ func (m *Model) valid(sn any, v any, p Pos) Verdict {
 	if res == Reject {
 		return res
 	}
+	var union map[string]any
+	if hasComposite(s) {
+		props := map[string]propAt{}
+		m.declaredProps(s, p.File, props, 0)
+		union = map[string]any{}
+		for k, pa := range props {
+			union[k] = pa.s
+		}
+	}
 	if all, ok := s["allOf"].([]any); ok {
 		for i, b := range all {
 			bp := p
+			bp.UnionDeclared = union
 			bp.Kind = "branch"
 			bp.Path = fmt.Sprintf("%s/allOf[%d]", p.Path, i)
 			join(m.valid(b, v, bp))
@@ -353,6 +364,7 @@ func (m *Model) valid(sn any, v any, p Pos) Verdict {
 		saveWhy := m.Why
 		for i, b := range anyOf {
 			bp := p
+			bp.UnionDeclared = union
 			bp.Kind = "branch"
 			bp.Path = fmt.Sprintf("%s/anyOf[%d]", p.Path, i)
 			x := m.valid(b, v, bp)
@@ -664,6 +676,14 @@ func (m *Model) object(s S, v map[string]any, p Pos) Verdict {
 					}
 				}
 			}
+			if us, ok := p.UnionDeclared[name]; !declared && p.Kind == "branch" && ok {
+				declared = true // declared by a sibling branch: the merged struct has the field and its presence check
+				if um, ok := us.(map[string]any); ok {
+					if _, hasDef := um["default"]; hasDef {
+						continue // "... and not given a default"
+					}
+				}
+			}
 			if !declared && m.dev("REQUIRED_UNDECLARED_IGNORED") {
 				m.fire("REQUIRED_UNDECLARED_IGNORED")
 				continue
@@ -680,6 +700,7 @@ func (m *Model) object(s S, v map[string]any, p Pos) Verdict {
 		if ps, ok := props[k]; ok {
 			pp := p
 			pp.Kind = "prop"
+			pp.UnionDeclared = nil
 			pp.ParentNoMethods = noMethodsStruct(p)
 			pp.Named = false
 			pp.InMap = false
